@@ -58,6 +58,16 @@ class SymZip:
         return [tuple(out)]
 
 
+_CLASS_OBJS: dict = {}
+
+
+def class_obj(name):
+    """The model of class `name`: one object per name, so that identity, equality and dict look-up agree."""
+    if name not in _CLASS_OBJS:
+        _CLASS_OBJS[name] = Obj("Class", name=name)
+    return _CLASS_OBJS[name]
+
+
 class CallableObj(Obj):
     """A model object that is also callable (a class with class attributes, e.g. inspect.Parameter)."""
 
@@ -191,7 +201,7 @@ class Evaluator:
             if e.id == "itertools":
                 return ITERTOOLS
             if e.id in ("Tensor", "Real", "NotImplemented", "ValueError", "TypeError", "NotImplementedError", "object", "int", "float", "str", "bool", "list", "tuple", "dict", "Integral", "Number"):
-                return NOT_IMPLEMENTED if e.id == "NotImplemented" else Obj("Class", name=e.id)
+                return NOT_IMPLEMENTED if e.id == "NotImplemented" else class_obj(e.id)
             raise Uninterpretable(f"name {e.id}")
         if isinstance(e, ast.Attribute):
             v = self.ev(e.value, env)
@@ -661,7 +671,7 @@ class Evaluator:
             if name == "dict":
                 return dict(args[0]) if args else dict(kwargs)
             if name == "type":
-                return Obj("Class", name=args[0].tag if isinstance(args[0], Obj) else type(args[0]).__name__)
+                return class_obj(args[0].tag if isinstance(args[0], Obj) else type(args[0]).__name__)
             if name == "reversed":
                 return tuple(reversed(args[0]))
             if name == "sorted":
